@@ -210,6 +210,8 @@ func runC07(c *Ctx, r *Report) {
 	r.Rule("C07/waitgroup-add", "every sync.WaitGroup counter is raised by the spawning side, before the goroutine it accounts for exists", 1)
 	checkWaitGroupAddBeforeGo(c, r, "C07/waitgroup-add")
 	importFoundation(c, r, "C07", "queue")
+	r.Rule("C07/closed-result-nil", "a value received from a result channel that its worker may close without sending is nil-checked before use (no panic after a transport error)", 1)
+	importObligations(r, func(sub *Report) { checkClosedResultNil(c, sub) }, "C05/closed-result-nil", "C07/closed-result-nil")
 	r.Rule("C07/cancel-released", "the cancel function of every context the library creates is deferred or called on every path to a return (a poller watching the context does not outlive the operation)", 6)
 	checkCancelDeferred(c, r, "C07/cancel-released")
 	r.Rule("C07/close-no-wait", "Close of each built-in transport calls no wait-for-peer API: it returns in bounded time whatever the peer does", 3)
